@@ -34,6 +34,7 @@ class Builder:
         self.ncoll = 0
         self.nb_completed_later = 0
         self.zero_recv_count = False
+        self.same_key_out_of_order = False
         self.comms = {"world": list(range(self.np))}     # name -> world ranks in communicator-rank order (one of its instances)
         self.groups = {"world": [list(range(self.np))]}   # name -> every instance (a split creates several)
         self.labels = []
@@ -197,6 +198,118 @@ class Builder:
         if cname != "world":
             self.labels.append("p2p-on:" + cname)
 
+    # -- bursts: 2..4 messages with the SAME (source, destination, tag), sizes spread over several decades, completed one by one
+    def burst(self, s):
+        """The trace names a request by (source, destination, tag) only: the replayer keeps one list per key.  a sends n messages with
+        one tag to b; at least one side is non-blocking; every rank with pending requests (a `waiter`) completes them with MPI_Waitall or
+        with individual MPI_Wait in posting / reverse / shuffled order, and does something that takes time between two waits: a small
+        blocking send to a third rank (which receives it), or a collective that every rank executes once in this step."""
+        np_ = self.np
+        a, b = s["src"] % np_, s["dst"] % np_
+        if a == b:
+            b = (a + 1) % np_
+        counts = [c for c in s["counts"]][:4]
+        T = s.get("type", "BYTE")
+        size = TYPES[T]
+        smode, rmode = s.get("modes", ["isend", "irecv"])
+        if smode == "send" and rmode == "recv":
+            rmode = "irecv"
+        self.tag += 1
+        tag = self.tag
+        soff = roff = 0
+        msgs = []
+        for i, c in enumerate(counts):
+            if soff + c * size > BUF:
+                break
+            msgs.append((i, c, soff))
+            soff += c * size
+        if not msgs:
+            return
+        n = len(msgs)
+        pending = {a: [], b: []}
+        if rmode == "irecv":
+            for i, c, off in msgs:
+                self.add({"op": "irecv", "buf": "rb", "off": off, "count": c, "type": T, "src": a, "tag": tag, "req": "br%d_%d" % (tag, i)}, [b])
+                pending[b].append("br%d_%d" % (tag, i))
+        for i, c, off in msgs:
+            op = {"op": smode, "buf": "sb", "off": off, "count": c, "type": T, "dest": b, "tag": tag}
+            if smode == "isend":
+                op["req"] = "bs%d_%d" % (tag, i)
+                pending[a].append(op["req"])
+            self.add(op, [a])
+            nbytes = c * size
+            self.labels.append("msg:" + ("0" if nbytes == 0 else "<=64k" if nbytes <= 65536 else ">64k"))
+        if rmode == "recv":
+            for i, c, off in msgs:
+                self.add({"op": "recv", "buf": "rb", "off": off, "count": c, "type": T, "src": a, "tag": tag}, [b])
+        self.labels.append("burst:%s/%s" % (smode, rmode))
+        if n >= 2:
+            self.labels.append("same-key-requests>=2")
+        sizes = sorted(c * size for _, c, _ in msgs)
+        if n >= 2 and sizes[-1] >= 100 * max(sizes[0], 1):
+            self.labels.append("burst:sizes-two-decades-apart")
+        done = s.get("done", "wait")
+        between = s.get("between", "send3")
+        third = [r for r in range(np_) if r not in (a, b)]
+        c3 = third[s.get("third", 0) % len(third)] if third else None
+        if between == "send3" and c3 is None:
+            between = "coll"
+        inner = s.get("inner") or {"t": "coll", "k": "barrier"}
+        waiters = [r for r in (b, a) if pending[r]]
+        coll_done = set()
+        for r in waiters:
+            reqs = pending[r]
+            self.nb_completed_later += len(reqs)
+            if done == "waitall" or len(reqs) < 2:
+                if len(reqs) >= 2:
+                    self.add({"op": "waitall", "reqs": reqs}, [r])
+                else:
+                    self.add({"op": "wait", "req": reqs[0]}, [r])
+                continue
+            order = list(range(len(reqs)))
+            if s.get("order") == "rev":
+                order.reverse()
+            elif s.get("order") == "shuffled":
+                k = 1 + s.get("rot", 0) % (len(order) - 1) if len(order) > 2 else 1
+                order = order[k:] + order[:k]
+            if order != sorted(order):
+                self.same_key_out_of_order = True
+            self.labels.append("individual-waits")
+            self.labels.append("burst:wait-order=" + ("posting" if order == sorted(order) else s.get("order")))
+            for j, i in enumerate(order):
+                self.add({"op": "wait", "req": reqs[i]}, [r])
+                if j == len(order) - 1 or (j > 0 and between == "coll"):
+                    continue
+                self.labels.append("action-between-waits")
+                if between == "send3":
+                    self.tag += 1
+                    cnt = s.get("count3", 10)
+                    self.add({"op": "send", "buf": "sb", "off": 0, "count": cnt, "type": "BYTE", "dest": c3, "tag": self.tag}, [r])
+                    self.add({"op": "recv", "buf": "rb", "off": 0, "count": cnt, "type": "BYTE", "src": r, "tag": self.tag}, [c3])
+                    self.labels.append("between:send-to-third-rank")
+                else:
+                    # a collective is executed once by every rank in this step: here by this waiter, below by the others
+                    a_ = self.coll_op(inner)
+                    self.add(a_, [r])
+                    coll_done.add(r)
+                    self.labels.append("between:collective")
+        if between == "coll" and coll_done:
+            rest = [r for r in range(np_) if r not in coll_done]
+            if rest:
+                self.add(self.coll_op(inner), rest)
+            self.ncoll += 1
+            self.labels.append("coll:" + inner["k"])
+
+    def coll_op(self, s):
+        """the `coll` operation of a collective step, without appending it"""
+        n0 = len(self.prog)
+        nc, lab = self.ncoll, list(self.labels)
+        self.coll(s)
+        op = self.prog.pop()
+        assert len(self.prog) == n0
+        self.ncoll, self.labels = nc, lab
+        return op
+
     def sendrecv(self, s):
         np_ = self.np
         k = s.get("shift", 1) % np_
@@ -219,6 +332,8 @@ class Builder:
                 self.p2p(s)
             elif t == "sendrecv":
                 self.sendrecv(s)
+            elif t == "burst":
+                self.burst(s)
         self.add({"op": "wtime"})
         return self.prog
 
@@ -255,6 +370,29 @@ def p2p_step(draw, np_, comms, zero_ok=True):
     return s
 
 
+BURST_COUNTS = [1, 10, 100, 1000, 10000, 65536, 65537, 100000, 1000000]      # bytes: below and above the eager / rendez-vous thresholds
+
+
+@st.composite
+def burst_step(draw, np_, zero_ok, odd_orders):
+    n = draw(st.integers(2, 4))
+    counts = draw(st.lists(st.sampled_from(BURST_COUNTS), min_size=n, max_size=n))
+    if draw(st.integers(0, 2)) > 0 and max(counts) < 100 * min(counts):
+        counts[draw(st.integers(0, n - 1))] = 1000000 if min(counts) < 10000 else 10      # most bursts: sizes several decades apart
+    s = {"t": "burst", "src": draw(st.integers(0, np_ - 1)), "dst": draw(st.integers(0, np_ - 1)), "counts": counts,
+         "modes": draw(st.sampled_from([["isend", "irecv"], ["isend", "irecv"], ["send", "irecv"], ["isend", "recv"]])),
+         "done": draw(st.sampled_from(["wait", "wait", "wait", "waitall"])),
+         "order": draw(st.sampled_from(["post"] * 4 + (["rev", "shuffled"] if odd_orders else []))),
+         "rot": draw(st.integers(0, 2)), "between": draw(st.sampled_from(["send3", "send3", "coll"])), "third": draw(st.integers(0, 5)),
+         "count3": draw(st.sampled_from([1, 10, 1000, 60000]))}
+    if s["between"] == "coll":
+        inner = draw(coll_step(zero_ok))
+        if inner["k"] in ("alltoallv", "gatherv", "scatterv", "allgatherv", "reduce_scatter"):
+            inner = {"t": "coll", "k": "barrier"}          # per-rank argument lists: kept for the plain collective steps
+        s["inner"] = inner
+    return s
+
+
 @st.composite
 def cases(draw, tier):
     np_ = draw(st.integers(2, 8))
@@ -265,12 +403,16 @@ def cases(draw, tier):
     # the other cases can show other divergences
     with_comm = draw(st.integers(0, 6)) == 0
     zero_ok = draw(st.integers(0, 6)) == 0
+    # individual waits in another order than the posting order, on requests with the same (source, destination, tag), hit a known finding
+    odd_orders = draw(st.integers(0, 5)) == 0
     for _ in range(nsteps):
-        kind = draw(st.sampled_from(["coll", "coll", "coll", "p2p", "p2p", "p2p", "sendrecv", "sendrecv"] + (["comm", "comm"] if with_comm else [])))
+        kind = draw(st.sampled_from(["coll", "coll", "coll", "p2p", "p2p", "burst", "burst", "burst", "sendrecv", "sendrecv"] + (["comm", "comm"] if with_comm else [])))
         if kind == "coll":
             steps.append(draw(coll_step(zero_ok)))
         elif kind == "p2p":
             steps.append(draw(p2p_step(np_, comms, zero_ok)))
+        elif kind == "burst":
+            steps.append(draw(burst_step(np_, zero_ok, odd_orders)))
         elif kind == "sendrecv":
             steps.append({"t": "sendrecv", "shift": draw(st.integers(1, 7)), "count": draw(st.sampled_from([0, 1, 100, 8192, 8193, 70000])),
                           "type": draw(st.sampled_from(TYPE_NAMES))})
@@ -415,6 +557,8 @@ class C37(core.Prop):
             return "communicator-creation-not-traced"
         if "coll:allgatherv" in b.labels and b.case.get("selector", "default") != "default":
             return "allgatherv-displacements-not-traced"
+        if b.same_key_out_of_order:
+            return "same-key-requests-waited-out-of-order"
         return "other"
 
 
